@@ -37,9 +37,14 @@ fn check(id: &str, tier: Tier) -> i32 {
         "C06" => {
             let n = ctx.runs(1_500, 45_000);
             let threads = ctx.threads;
+            let seed = ctx.seed;
             let kf = framework::load_known_findings(&ctx.verif_dir);
             let open: Vec<framework::Finding> = kf.findings.iter().filter(|f| f.property == "C06" && f.status == "open").cloned().collect();
-            run_check(&props::c06::C06, &ctx, &[("programs", n)], move |cov, _, xs| props::c06::process_stratum(threads, &open, cov, xs)).exit
+            run_check(&props::c06::C06, &ctx, &[], move |cov, _, xs| {
+                let mut f = props::c06::batch_stratum(seed, n, threads, cov, xs);
+                f.extend(props::c06::process_stratum(threads, &open, cov, xs));
+                f
+            }).exit
         }
         "C19" => {
             let n = ctx.runs(3_000, 200_000);
@@ -258,6 +263,14 @@ fn main() {
                 }
             }
         }
+        Some("c06-batch-worker") => {
+            let seed: u64 = args.get(2).and_then(|s| s.parse().ok()).unwrap_or(1);
+            let from: usize = args.get(3).and_then(|s| s.parse().ok()).unwrap_or(0);
+            let to: usize = args.get(4).and_then(|s| s.parse().ok()).unwrap_or(0);
+            props::c06::batch_worker(seed, from, to);
+            0
+        }
+        Some("c06-exec-one") => props::c06::exec_one_from_stdin(),
         Some("c06-worker") => {
             let name = args.get(2).cloned().unwrap_or_default();
             let param: u64 = args.get(3).and_then(|s| s.parse().ok()).unwrap_or(0);
